@@ -9,6 +9,7 @@ import (
 	"errors"
 	"fmt"
 	"reflect"
+	"slices"
 	"strings"
 	"sync"
 
@@ -431,17 +432,35 @@ func runProg(p prog, fails []int, allFails bool) {
 				lv--
 			}
 		}
-		r := &recorder{failAt: -1}
-		var err error
-		if pn := common.Catch(func() { err = sn.node.Apply(sn.depth, r) }); pn != nil || err != nil {
-			rec.Violate(site+"revisit/error", fmt.Sprintf("visiting the node of callback %d again: panic %v, error %v", sn.at, pn, err), c)
-			return
+		// ... at its own depth, from depth 0 and from a deeper level: the callbacks are those of the node (a root stays
+		// a root morphism, a nested context a nested one), the depths move with the starting depth
+		for _, d0 := range []int{sn.depth, 0, sn.depth + 3} {
+			r := &recorder{failAt: -1}
+			var err error
+			if pn := common.Catch(func() { err = sn.node.Apply(d0, r) }); pn != nil || err != nil {
+				rec.Violate(site+"revisit/error", fmt.Sprintf("visiting the node of callback %d again: panic %v, error %v", sn.at, pn, err), c)
+				return
+			}
+			want := slices.Clone(ev[sn.at:end])
+			for i := range want {
+				want[i].Depth += d0 - sn.depth
+			}
+			if !reflect.DeepEqual(r.ev, want) {
+				rec.Violate(site+"revisit/trace", fmt.Sprintf("visiting the node handed to callback %d (%v) again from depth %d reports %v, the first visit (at depth %d) reported %v for it", sn.at, ev[sn.at], d0, r.ev, sn.depth, ev[sn.at:end]), c)
+				return
+			}
+			// a failing visitor on the sub-visit: the error comes back and the visit stops there
+			if len(want) > 1 {
+				k := len(want) - 1
+				rf := &recorder{failAt: k}
+				var ferr error
+				if pn := common.Catch(func() { ferr = sn.node.Apply(d0, rf) }); pn != nil || ferr != boom || len(rf.ev) != k+1 {
+					rec.Violate(site+"revisit/fail", fmt.Sprintf("visiting the node of callback %d again from depth %d with the visitor failing at its last callback: panic %v, error %v, %d callbacks (want %d)", sn.at, d0, pn, ferr, len(rf.ev), k+1), c)
+					return
+				}
+			}
+			rec.Count("nodes_revisited", 1)
 		}
-		if !reflect.DeepEqual(r.ev, ev[sn.at:end]) {
-			rec.Violate(site+"revisit/trace", fmt.Sprintf("visiting the node handed to callback %d (%v) again at depth %d reports %v, the first visit reported %v for it", sn.at, ev[sn.at], sn.depth, r.ev, ev[sn.at:end]), c)
-			return
-		}
-		rec.Count("nodes_revisited", 1)
 	}
 	depth := 0
 	for _, e := range ev {
